@@ -410,6 +410,20 @@ func GenWorld(r *rand.Rand, o WorldOpts) *World {
 		names := append([]string{}, defNames[:min(nd, len(defNames))]...)
 		if o.HostileNames {
 			names = append(names, hostileDefNames[r.Intn(len(hostileDefNames))])
+			// a name and the text of its own escaped form side by side: a lookup that forgets to decode (or decodes twice)
+			// lands on the twin
+			twins := [][2]string{{"a/b", "a~1b"}, {"c~d", "c~0d"}, {"g%h", "g%25h"}, {"e f", "e%20f"}, {"~", "~0"}, {"/", "~1"}}
+			tw := twins[r.Intn(len(twins))]
+			names = append(names, tw[0], tw[1])
+			seen := map[string]bool{}
+			uniq := names[:0]
+			for _, n := range names {
+				if !seen[n] {
+					seen[n] = true
+					uniq = append(uniq, n)
+				}
+			}
+			names = uniq
 		}
 		for _, n := range names {
 			g.rank++
